@@ -46,7 +46,7 @@ TraceNext ==
         /\ mon' = NextMon(e, pre, e.post, mon)
         /\ pre' = e.post
      ELSE IF e.ev = "Query" THEN
-        /\ viol' = Record(e, C19(e, mon) \cup C09(e))
+        /\ viol' = Record(e, C19(e, mon) \cup QueryReadOnly(e) \cup C09(e))
         /\ mon' = QueryMon(e, mon)
         /\ pre' = pre
      ELSE
